@@ -144,6 +144,22 @@ class C04(Prop):
             else:
                 src = "return [%s, nosuchfield, $%s];" % (nm, nm)
                 exp = {"class": "ok", "value": "a(%s,n,%s)" % (enc_value(v), enc_value(v))}
+            if v is not UNSUPPORTED and v is not None and rng.random() < 0.35 and len(fields) >= 2:
+                # the object's fields are the same on both sides of a call of a user-defined function, whoever names one first
+                nm2, e2, v2 = rng.choice([f for f in fields if f[0] != nm] or [probe])
+                if v2 is not UNSUPPORTED and v2 is not None:
+                    shape = rng.randrange(3)
+                    if shape == 0:
+                        src = "function getf() { return %s; } a = %s; b = getf(); return [a, b, %s];" % (nm2, nm, nm2)
+                        want = [v, v2, v2]
+                    elif shape == 1:
+                        src = "function getf() { return %s; } b = getf(); return [b, %s, %s];" % (nm2, nm, nm2)
+                        want = [v2, v, v2]
+                    else:
+                        src = "function inner() { return %s; } function outer() { x = %s; return [x, inner(), %s]; } return [outer(), %s];" % (nm, nm2, nm2, nm)
+                        want = [[v2, v, v2], v]
+                    ops = []
+                    exp = {"class": "ok", "value": enc_value(want)}
             allops = ops + ["prepare:" + rng.choice(["opt", "noopt"]), "exec:0", "exec:1", "exec:0"]
             k = len(ops) + 1
             expect = {}
